@@ -27,6 +27,9 @@ ASSUMPTIONS = [
     'exceptions are compared by type only',
     'with two caller threads the callers interleave at range-read / pool decision points only',
     'xarray requests use unit steps (stepped requests are C13/C02 territory)',
+    'in a quarter of the single-caller histories some reads meet a one-shot storage fault (exception / short / empty on '
+    'their k-th range request); such a read is an earlier read like any other: its own outcome is not judged, every '
+    'later result is',
 ]
 
 
@@ -61,7 +64,15 @@ def gen_params(ctx, run, entry=None):
     n_ops = wl.choice([5, 8, 12, 20, 30, 40])
     policy = wl.choice(core.POLICIES)
     sib_ok = wl.random() < ctx.get('p_sibling', 0) and e.get('sibling') is not None
-    ops = histories.gen_history(wl, e['meta'], n_ops, two_threads=two, xarray_ok=xr_ok, sibling_ok=sib_ok, nudge=True)
+    fl = wl.random()
+    flavour = 'traces' if fl < 0.1 else ('headers' if fl < 0.2 else None)
+    if flavour == 'headers' and entry is None and e['meta']['kind'] == '3d' and wl.random() < 0.6:
+        odd = [x for x in ctx['lib'] if x['meta']['kind'] in ('irreg', '2d')]
+        if odd:
+            e = odd[wl.randrange(len(odd))]
+            sib_ok = sib_ok and e.get('sibling') is not None
+    ops = histories.gen_history(wl, e['meta'], n_ops, two_threads=two, xarray_ok=xr_ok, sibling_ok=sib_ok, nudge=True,
+                                flavour=flavour, faults=wl.random() < (0.6 if flavour == 'headers' else 0.25))
     other_entry = None
     if not two and wl.random() < ctx.get('p_other', 0):
         # a reader on another file of the library takes part (process-wide state keyed by something that two
@@ -121,6 +132,8 @@ def one_run(ctx, run, ops=None, trace=None, entry=None, preempt='gen', other_ent
                                         other=other)
     if preempt:
         probes['line_level_preemption'] += 1
+    if getattr(fs, 'nfaults_fired', 0):
+        probes['earlier_read_met_a_storage_fault'] += 1
     rec = {'run': run, 'file': e['name'], 'layout': f"{m['kind']}/{m['layout']}", 'ops': len(ops), 'calls': 0,
            'states': sorted(states), 'probes': dict(probes), 'violation': None, 'two_threads': two,
            'ed': r.sched.digest(), 'simtime': r.sched.clock, 'status': r.status}
@@ -290,7 +303,7 @@ def main(tier, seed):
 
 def _main(tier, seed, scratch, t0):
     quick = tier == 'quick'
-    lib = filelib.build(seed, scratch, n_random=6 if quick else 60)
+    lib = filelib.build(seed, scratch, n_random=6 if quick else 60, big=True)
     for e in lib:
         e['sibling'] = filelib.make_sibling(e['data'], e['meta'])
     ctx = {'seed': seed, 'lib': lib, 'p_two_threads': 0.15 if quick else 0.3, 'p_xarray': 0.1, 'p_sibling': 0.3,
@@ -352,7 +365,7 @@ def _main(tier, seed, scratch, t0):
         reported.append({'signature': sig, 'replay': path, 'what': doc.get('what', '')})
     expected = ['op_with_cache_hit', 'call_served_without_io', 'close_between_calls', 'method_switch_on_same_object',
                 'identical_call_repeated_on_same_object', 'kind:reader', 'kind:emulator', 'kind:xarray', 'kind:sibling',
-                'kind:other',
+                'kind:other', 'earlier_read_met_a_storage_fault',
                 'same_call_on_file_and_sibling',
                 'opener:preload', 'opener:ccs1', 'opener:ccs2', 'opener:blob', 'opener:emulator', 'opener:handle']
     wall = time.time() - t0
@@ -372,7 +385,9 @@ def _main(tier, seed, scratch, t0):
         'unreached': [p for p in expected if not probes.get(p)],
         'files_in_library': len(lib),
         'histories_skipped_for_budget': len(skipped),
-        'fault_counts': {'none': 'C15 quantifies over histories and configurations; no fault is injected'},
+        'fault_counts': {'histories_in_which_an_earlier_read_met_a_one_shot_storage_fault':
+                         probes.get('earlier_read_met_a_storage_fault', 0),
+                         'note': 'the faulted read itself is not judged (C17 does that); every later read of the history is'},
         'runs_per_hour': int(len(results) / max(1e-9, wall) * 3600),
         'simulated_time_s': round(simtime, 2),
         'determinism_selftest': {'histories_repeated_in_process': 6 if quick else 30, 'mismatches': 0},
